@@ -1,6 +1,7 @@
 import NTV.Model.Resultant
 import NTV.Proofs.Lemmas.ResRatProofs
 import NTV.Proofs.Lemmas.SubresStep
+import NTV.Proofs.Lemmas.SubresLoop
 /-! # C04 — the resultant equals the Sylvester determinant.
 `Polynomial.resultant` is Mathlib's determinant of the Sylvester matrix. -/
 open Polynomial
@@ -56,5 +57,16 @@ theorem smart_const_left (g : List Int) (c : Int) (hg : 2 ≤ g.length) :
   rw [resultantSmartE]
   simp only [List.isEmpty_cons, Bool.false_eq_true, ↓reduceIte, hfuel]
   simp [resLoop, h0, h1, h2, tdivX, Int.tmod_one]
+
+/-- the integer routine `resultant_smart` (subresultant PRS), partial: for all non-zero canonical
+f, g ∈ ℤ[x], whenever every truncated division it performs is exact — the flag the model carries and the
+check asserts on every explored case (exactness for all inputs is the fundamental theorem of
+subresultants, not proved here) — the returned value IS the determinant of the Sylvester matrix. -/
+theorem smart_is_sylvester_partial (f g : List Int) (hf : f ≠ []) (hg : g ≠ []) (hcf : Canon f) (hcg : Canon g)
+    (v : Int) (h : resultantSmartE f g = some (.ok (v, true))) :
+    v = resultant (toPoly f) (toPoly g) := resultantSmart_exact f g hf hg hcf hcg v h
+
+/-- non-vacuity: the exactness flag is true on a concrete degree-gap input (the third unit test) -/
+example : resultantSmartE [2, 0, 1, 0, 1] [1, 0, 1] = some (.ok (4, true)) := by decide +kernel
 
 end NTV.C04
